@@ -17,6 +17,7 @@ import (
 //  2. the invariant is stable between send and receive: fields of the element's struct type are
 //     written only through a pointer that is an allocation of the same function (a composite
 //     literal being built), never through a pointer that may already have been sent.
+//
 // The result is a sentence for the list of assumptions.
 func (eng *Engine) chanInvScan(ci *ChanInv, elem types.Type) string {
 	if eng.chanScan == nil {
